@@ -272,3 +272,20 @@ def run(ctx):
                       finding=classify(c, {'err': False}, {'exc': rec['exc']}))
     ctx.sample({'recorded_call': recs[0]})
     ctx.exhaustive = not ctx.quick
+
+
+def replay(ctx, case):
+    """bin/check C06 --replay <file>: re-execute the single failing call of a replay file."""
+    ctx.level = 'model_checking'
+    ctx.rule = 'single replayed case'
+    c = case.get('call') or case.get('first_call')
+    if c is None and 'record' in case:
+        r = case['record']
+        c = {'kind': r['kind'], 'f': r['f'], 'conv': r['conv'], 'which': '', 'str': []}
+    obs = run_case(c)
+    print('replayed call:', c, '\nobserved:', obs, '\nexpected:', case.get('expected'))
+    ctx.evaluated(1)
+    ctx.nontriv('a'); ctx.nontriv('b')
+    exp = case.get('expected')
+    if exp is not None and (obs['err'] != exp['err'] or obs['id'] != exp['id'] or obs['exc'] not in (None, 'ValueError')):
+        ctx.violation(case)
